@@ -4,6 +4,7 @@ import Driver.Dns
 import Driver.Uptime
 import Driver.Rs
 import Driver.Mqtt
+import Driver.CalCfg
 
 def main (args : List String) : IO UInt32 := do
   match args with
@@ -13,4 +14,5 @@ def main (args : List String) : IO UInt32 := do
   | ["uptime"] => Driver.UptimeDrv.main; return 0
   | ["rs"] => Driver.RsDrv.main; return 0
   | ["mqtt"] => Driver.MqttDrv.main; return 0
+  | ["calcfg"] => Driver.CalCfgDrv.main; return 0
   | _ => IO.eprintln "usage: svdrv <subsystem>"; return 2
